@@ -409,6 +409,7 @@ def setup():
     b = vf.build_harness()
     if b is None:
         return 2
+    vf.build_harness(puf=False)      # warm the feature-off build too (its failure is C17's finding, not a setup error)
     for m in sorted(glob.glob(os.path.join(vf.SPEC, "*.tla"))):
         r = subprocess.run(["tla-sany", os.path.basename(m)], cwd=vf.SPEC, stdout=subprocess.PIPE, stderr=subprocess.STDOUT, text=True)
         if r.returncode != 0 or "rror" in r.stdout.replace("Semantic errors", "rror"):
